@@ -39,6 +39,10 @@ import Mdns.Lemmas.ResponderSched
     for every unique record the daemon did not hold, probe queries for its name in exactly the
     iterations at `t0+j`, `+250`, `+500` and the record active after `t0+j+750` (for `j = 0` the first
     query leaves in the registration iteration itself);
+  * the two announcements as step contracts (`first_announcement`: a woken service whose unique
+    records are active is announced with PTR/subtype PTR/SRV/TXT/addresses, becomes `Announced`,
+    `RegisterResend` queued for +1000 ms with a timer; `second_announcement`: the re-run sends the
+    same record set again, by the invariant);
   The statement for every service, interface and start time is `probe_lifecycle_full`.
 
   Findings kept as theorems about the model (= the code, by the correspondence):
@@ -253,6 +257,40 @@ theorem registration_probe_lifecycle (s : State) (i : MyIntf) (l1 l2 : List MyIn
   obtain ⟨hask, hact⟩ := probe_schedule_in_daemon _ i l1 l2 n (t0 + j) [b] j hg hfam pre0 pre1 pre2 pre3 h0 h1 h2 h3
   refine ⟨hno hj, hask, ?_⟩
   exact isActive_of_matches _ a b hm (hname.trans hbn.symm) (hact b (by simp) hbn)
+
+/-! ### the two announcements -/
+
+/-- FIRST ANNOUNCEMENT.  When `probing_handler` wakes a registered service that is not yet
+    `Announced` on interface `i` and whose unique records of family `v4` are all active there (it
+    has an in-subnet address of that family): the announcement - PTR (and subtype PTR), SRV, TXT,
+    the addresses, as answers of one response - leaves on `i` over that family; every monitor
+    gets an event; the status becomes `Announced`; `RegisterResend` is queued for one second
+    later and a timer is armed for it. -/
+theorem first_announcement (now j : Nat) (i : MyIntf) (acc : State × List Out) (name : BList) (svc : Service) (v4 : Bool)
+    (hsvc : alookup (lower name) acc.1.services = some svc) (hnot : svc.announcedOn i.index = false)
+    (hne : addrsOn svc i v4 ≠ [])
+    (hact : ∀ a ∈ uniqueRecords svc i (acc.1.registry i.index) v4, (acc.1.registry i.index).isActive a = true) :
+    Out.send i.index v4 none (announcePkt svc ((acc.1.registry i.index).resolveName svc.fullname)
+        (uniqueRecords svc i (acc.1.registry i.index) v4)) ∈ (wakeService now j i acc name).2 ∧
+    (∃ svc', alookup (lower name) (wakeService now j i acc name).1.services = some svc' ∧ svc'.announcedOn i.index = true) ∧
+    ReRun.registerResend (now + 1000) svc.fullname i.index ∈ (wakeService now j i acc name).1.reruns ∧
+    (now + 1000) ∈ (wakeService now j i acc name).1.timers ∧
+    (∀ ch ∈ acc.1.monitors, ∃ e, Out.event ch e ∈ (wakeService now j i acc name).2) :=
+  wakeService_announces now j i acc name svc v4 hsvc hnot hne hact
+
+/-- SECOND ANNOUNCEMENT.  When the queued `RegisterResend` of a registered service that requires
+    probing runs and the service is `Announced` on the interface - so that by the invariant
+    (`announced_records_active`) its unique records of some family are active there - the
+    announcement with the same record set leaves again on that interface over that family
+    (whatever the letter case of the name, since the repair of D8). -/
+theorem second_announcement (s : State) (now j : Nat) (fullname : BList) (i : MyIntf) (svc : Service) (r0 : Registry)
+    (hsvc : alookup (lower fullname) s.services = some svc) (hreg : alookup i.index s.registries = some r0)
+    (hfind : s.intfs.find? (·.index == i.index) = some i) (huniq : ∀ i' ∈ s.intfs, i'.index = i.index → i' = i)
+    (hprobe : svc.probe = true) (hann : svc.announcedOn i.index = true) (hsound : SvcSound s svc) :
+    ∃ v4, addrsOn svc i v4 ≠ [] ∧
+      Out.send i.index v4 none (announcePkt svc (r0.resolveName svc.fullname) (uniqueRecords svc i r0 v4)) ∈
+        (execRegisterResend s now j fullname i.index).2 :=
+  registerResend_announces s now j fullname i svc r0 hsvc hreg hfind huniq hprobe hann hsound
 
 /-! ### findings (the model mirrors the code; both agree on the witnesses in corpus/C07) -/
 
